@@ -282,6 +282,18 @@ def lock_protocol_conformance(pid, tier, wd, all_tr, drift):
     r["distinct"] += rm["distinct"]
     r["generated"] += rm["generated"]
     log("[%s] ... and for memory-limited caches: %d states" % (pid, rm["distinct"]))
+    if thorough:
+        # three threads, one operation each
+        c3 = dict(consts, NThreads=3, MaxOps=1, Pols={"lru", "lfu"}, Limits={1, 2}, Ttls={0, 2}, Maxmems={0, 3})
+        c3cfg = os.path.join(wd, "ConcMC_3t.cfg")
+        write_cfg(c3cfg, "Spec", c3, invariants=["NoDeadlock", "QuiescentConsistent", "ValuesCorrect"])
+        r3 = tlc_mc("ConcMC", c3cfg, pid + "_concmc_3t", workers=12, timeout=5000)
+        if not r3["ok"]:
+            raise ToolError("TLC did not prove the Conc.tla invariants for three threads:\n" +
+                            ("\n".join(r3["errors"][:4]) or r3["out"][-2000:]))
+        r["distinct"] += r3["distinct"]
+        r["generated"] += r3["generated"]
+        log("[%s] ... and for three threads x one operation: %d states" % (pid, r3["distinct"]))
     # non-vacuity: the as-found protocols must be refuted
     refuted = []
     if thorough or pid == "C17":
